@@ -273,7 +273,7 @@ func runC08BBoxRead(c *Ctx) {
 	}
 	n := 0
 	bad := ""
-	eachInstr(rd, func(in ssa.Instruction) {
+	checkIdx := func(in ssa.Instruction, guardAt ssa.Instruction) {
 		ia, ok := in.(*ssa.IndexAddr)
 		if !ok {
 			return
@@ -282,10 +282,19 @@ func runC08BBoxRead(c *Ctx) {
 			return
 		}
 		n++
-		read := fieldGuards(ia, "twkbParser")
+		read := fieldGuards(guardAt, "twkbParser")
 		for k := range fill {
 			if !read[k] {
 				bad = fmt.Sprintf("p.bbox is filled only when {%s} but is indexed at %s under {%s}: when the missing condition (%s) fails the slice is empty and the header reader panics with index out of range", keysOf(fill), c.P.Pos(ia.Pos()), keysOf(read), k)
+			}
+		}
+	}
+	eachInstr(rd, func(in ssa.Instruction) {
+		checkIdx(in, in)
+		// index expressions moved into a helper are judged under the conditions of the helper's call site
+		if call, ok := in.(*ssa.Call); ok {
+			if h := staticCallee(call); h != nil && isNewHelper(h) && len(h.Blocks) > 0 {
+				eachInstr(h, func(in2 ssa.Instruction) { checkIdx(in2, call) })
 			}
 		}
 	})
